@@ -197,10 +197,23 @@ def run_generated(cx, spec, rng):
     node = Node("node.verif.example", "verif.example")
     app = Application(application_id=4, is_auth_application=True)
     app._node = node
+    nodes = [node]
+    cur_host, cur_realm = b"node.verif.example", b"verif.example"
     codes = sorted(cx.table) + [777]
+    done = 0
     for ci, code in enumerate(codes):
         if ci % spec["parts"] != spec["part"]:
             continue
+        done += 1
+        if done % 4 == 0:
+            # second life of the application object: registered (documented way) with another node, e.g. after a
+            # restart inside one process - "the local Origin-Host and Origin-Realm" are that node's from now on
+            k = len(nodes)
+            cur_host, cur_realm = b"node%d.site%d.example" % (k, k), b"site%d.example" % k
+            node = Node(cur_host.decode(), cur_realm.decode())
+            node.add_application(app, [], [])
+            nodes.append(node)
+            cx.cov["application_moved_to_another_node"] = cx.cov.get("application_moved_to_another_node", 0) + 1
         base = cx.table.get(code)
         typed = base is not None and issubclass(base, DefinedMessage)
         for rep in range(spec["reps"]):
@@ -242,10 +255,10 @@ def run_generated(cx, spec, rng):
                     by.setdefault((a.code, a.vendor), []).append(a)
                 oh = by.get((264, 0), [])
                 orr = by.get((296, 0), [])
-                if len(oh) != 1 or oh[0].data != b"node.verif.example":
+                if len(oh) != 1 or oh[0].data != cur_host:
                     cx.witness(f"generated.origin_host_missing.{tkey}", {"code": code, "gen": gen,
                                                                          "cls": type(ans).__name__}, rp)
-                if len(orr) != 1 or orr[0].data != b"verif.example":
+                if len(orr) != 1 or orr[0].data != cur_realm:
                     cx.witness(f"generated.origin_realm_missing.{tkey}", {"code": code, "gen": gen,
                                                                           "cls": type(ans).__name__}, rp)
                 s = by.get((263, 0), [])
@@ -280,7 +293,7 @@ def run_generated(cx, spec, rng):
                 if len(cx.samples) < 5 and rep == 0 and gen == "app":
                     cx.samples.append({"generated_by": gen, "request_code": code, "answer_class": type(ans).__name__,
                                        "answer_head": out[:40].hex()})
-    for fd in (node.interrupt_read, node.interrupt_write):
+    for fd in [f for n in nodes for f in (n.interrupt_read, n.interrupt_write)]:
         try:
             os.close(fd)
         except OSError:
